@@ -28,6 +28,8 @@ type resolver struct {
 	sw        *ast.SwitchStmt
 	helpers   []*ast.FuncDecl // same-package helpers the closure delegates guards to
 	loserObj  types.Object    // local that the arms set and a single removal after the switch deletes
+	prog           *Program
+	inHelperLookup bool
 }
 
 // removalTarget: call removes one action from the candidate list; returns the variable naming it.
@@ -36,6 +38,34 @@ func (r *resolver) removalTarget(call *ast.CallExpr) types.Object {
 	info := r.pk.TypesInfo
 	if r.removeObj != nil && usesObj(info, call.Fun) == r.removeObj && len(call.Args) == 1 {
 		return usesObj(info, call.Args[0])
+	}
+	// a declared helper (function or method of the package) that removes the action it is given:
+	// its body contains a removal whose target is one of its parameters
+	if fn := calleeFunc(info, call); fn != nil && fn.Pkg() == r.pk.Types && r.prog != nil && !r.inHelperLookup {
+		if hd := r.prog.funcDecls[fn.Origin()]; hd != nil && hd.Body != nil && hd != r.outer {
+			r.inHelperLookup = true
+			var target types.Object
+			ast.Inspect(hd.Body, func(m ast.Node) bool {
+				if c2, ok := m.(*ast.CallExpr); ok && target == nil {
+					if t := r.removalTarget(c2); t != nil {
+						target = t
+					}
+				}
+				return true
+			})
+			r.inHelperLookup = false
+			if target != nil {
+				k := 0
+				for _, fld := range hd.Type.Params.List {
+					for _, nm := range fld.Names {
+						if info.Defs[nm] == target && k < len(call.Args) {
+							return usesObj(info, call.Args[k])
+						}
+						k++
+					}
+				}
+			}
+		}
 	}
 	if fn := calleeFunc(info, call); fn != nil && fn.Name() == "DeleteFunc" && len(call.Args) == 1 {
 		if fl, ok := ast.Unparen(call.Args[0]).(*ast.FuncLit); ok && len(fl.Body.List) == 1 && len(fl.Type.Params.List) == 1 && len(fl.Type.Params.List[0].Names) == 1 {
@@ -62,7 +92,7 @@ func findResolver(c *Ctx) *resolver {
 		return nil
 	}
 	info := pk.TypesInfo
-	r := &resolver{pk: pk, outer: fd}
+	r := &resolver{pk: pk, outer: fd, prog: p}
 	// the function literal that (transitively) calls Array.DeleteFunc through a helper
 	ast.Inspect(fd.Body, func(n ast.Node) bool {
 		as, ok := n.(*ast.AssignStmt)
@@ -74,6 +104,14 @@ func findResolver(c *Ctx) *resolver {
 			return true
 		}
 		deletes := len(findCalls(info, fl.Body, true, func(fn *types.Func, _ *ast.CallExpr) bool { return fn != nil && fn.Name() == "DeleteFunc" })) > 0
+		if !deletes {
+			ast.Inspect(fl.Body, func(m ast.Node) bool {
+				if c2, ok := m.(*ast.CallExpr); ok && !deletes && r.removalTarget(c2) != nil {
+					deletes = true
+				}
+				return true
+			})
+		}
 		if !deletes {
 			return true
 		}
@@ -912,7 +950,44 @@ func ruleCFL1(c *Ctx) {
 				return fn != nil && (fn.Name() == "DeleteFunc" || fn.Name() == "Remove" || fn.Name() == "Clear") && strings.Contains(fullName(fn), "array.Array")
 			}) {
 				nDel++
-				c.check(fd.Name.Name == "resolveConflicts", rule, "lr1."+fd.Name.Name+"/removes-action", p.Pos(call.Pos()),
+				inResolver := fd.Name.Name == "resolveConflicts"
+				if !inResolver {
+					// a helper of the resolver: every static call site of it lies inside resolveConflicts
+					if fnObj, ok := pk.TypesInfo.Defs[fd.Name].(*types.Func); ok {
+						sites, outside := 0, 0
+						p.ProdFiles(func(pk2 *packages.Package, f2 *ast.File) {
+							for _, d2 := range f2.Decls {
+								fd2, ok := d2.(*ast.FuncDecl)
+								if !ok || fd2.Body == nil {
+									continue
+								}
+								ast.Inspect(fd2.Body, func(m ast.Node) bool {
+									switch x := m.(type) {
+									case *ast.CallExpr:
+										if cf := calleeFunc(pk2.TypesInfo, x); cf != nil && cf.Origin() == fnObj {
+											sites++
+											if !(pk2 == pk && fd2.Name.Name == "resolveConflicts") {
+												outside++
+											}
+										}
+									case *ast.Ident:
+										// a function value taken without calling it escapes the who-may-call rule
+										if pk2.TypesInfo.Uses[x] == fnObj {
+											if _, isCall := parents(fd2)[x].(*ast.CallExpr); !isCall {
+												if sel, isSel := parents(fd2)[x].(*ast.SelectorExpr); !isSel || sel.Sel != x {
+													outside++
+												}
+											}
+										}
+									}
+									return true
+								})
+							}
+						})
+						inResolver = sites > 0 && outside == 0
+					}
+				}
+				c.check(inResolver, rule, "lr1."+fd.Name.Name+"/removes-action", p.Pos(call.Pos()),
 					"candidate actions are removed only by the precedence resolution", "candidate actions are removed outside resolveConflicts: a conflict can disappear unreported")
 			}
 		}
